@@ -27,7 +27,7 @@ let show (r : (xvalue, exn) sum) : string =
   match r with
   | Inl (XV _) -> "ok"
   | Inl (XRoutes rs) ->
-      "ok routes [" ^ String.concat "|" (List.map (fun r -> String.concat ">" (List.map hname r)) rs) ^ "]"
+      "ok routes [" ^ String.concat "|" (List.map (fun r -> String.concat ">" (List.map hname r)) rs) ^ "] eq=1"
   | Inr e -> "exn " ^ exn_name e
 
 let run_op2 (taken : string -> bool) (handle : string -> positive) (s : state) (t : string list)
